@@ -69,6 +69,40 @@ theorem dispatch_goes_to_cursor (cfg : Cfg) (ok : CfgOk cfg) (fuel : Nat) (s : S
 theorem rr_distinct (W next k : Nat) (hk : k ≤ W) : ((List.range k).map (fun j => (next + j) % W)).Nodup :=
   cursor_positions_distinct W next k hk
 
+/-- **Round robin, composed**: if the `k ≤ W` cursor positions from `next` on are marked available
+(no worker among them is saturated), `k` connections handed to `accept_one` back to back (the
+`accept` loop) go to the workers `next, next+1, …` in that order, whatever other threads do at the
+yield points in between … -/
+theorem consecutive_connections_follow_the_cursor (cfg : Cfg) (ok : CfgOk cfg) (cs : List Conn) (s : St)
+    (h : AccInv cfg s) (hnf : s.fault = none) (hk : cs.length ≤ cfg.nIdx)
+    (hav : ∀ j, j < cs.length → s.avail ((s.next + j) % cfg.nIdx) = true) :
+    (burst cfg s cs).dispatched =
+      s.dispatched ++ (List.range cs.length).zipWith (fun j c => (c, (s.next + j) % cfg.nIdx)) cs ∧
+    (burst cfg s cs).next = (s.next + cs.length) % cfg.nIdx :=
+  burst_round_robin ok cs s h hnf hk hav
+
+/-- … hence **any `k ≤ W` consecutive connections go to `k` distinct workers**. -/
+theorem consecutive_connections_go_to_distinct_workers (cfg : Cfg) (ok : CfgOk cfg) (cs : List Conn) (s : St)
+    (h : AccInv cfg s) (hnf : s.fault = none) (hk : cs.length ≤ cfg.nIdx)
+    (hav : ∀ j, j < cs.length → s.avail ((s.next + j) % cfg.nIdx) = true) :
+    (((burst cfg s cs).dispatched.drop s.dispatched.length).map (·.2)).Nodup := by
+  rw [(burst_round_robin ok cs s h hnf hk hav).1, List.drop_left]
+  have : ((List.range cs.length).zipWith (fun j c => (c, (s.next + j) % cfg.nIdx)) cs).map (·.2) =
+      (List.range cs.length).map (fun j => (s.next + j) % cfg.nIdx) := by
+    generalize s.next = a
+    have key : ∀ (l : List Nat) (cs : List Conn), l.length = cs.length →
+        (l.zipWith (fun j c => (c, (a + j) % cfg.nIdx)) cs).map (·.2) = l.map (fun j => (a + j) % cfg.nIdx) := by
+      intro l; induction l with
+      | nil => intro cs _; simp
+      | cons x xs ih =>
+        intro cs hl
+        cases cs with
+        | nil => simp at hl
+        | cons c cs => simp only [List.zipWith_cons_cons, List.map_cons]; rw [ih cs (by simpa using hl)]
+    exact key _ cs (by simp)
+  rw [this]
+  exact cursor_positions_distinct cfg.nIdx s.next cs.length hk
+
 /-- **a saturated (not-available) worker is skipped and receives nothing**: `accept_one` only moves
 the cursor past it -/
 theorem saturated_worker_is_skipped (cfg : Cfg) (ok : CfgOk cfg) (fuel : Nat) (s : St) (c : Conn)
@@ -90,5 +124,18 @@ theorem available_iff_capacity_modulo_wakeup (cfg : Cfg) (s : St) (g : Good cfg 
   refine ⟨fun h => ?_, fun h ht => ?_⟩
   · have := gw.2.1 h; omega
   · have := gw.2.2.2.2.1 h ht; omega
+
+/-! ### Non-vacuity of the composed round-robin theorems -/
+def cfg3 : Cfg := { limit := 2, nIdx := 3 }
+example : CfgOk cfg3 ∧ AccInv cfg3 (init cfg3 [.tcp]) ∧ (init cfg3 [.tcp]).fault = none ∧
+    (∀ j, j < 3 → (init cfg3 [.tcp]).avail (((init cfg3 [.tcp]).next + j) % cfg3.nIdx) = true) := by
+  have ok : CfgOk cfg3 := ⟨by decide, by decide, by decide⟩
+  refine ⟨ok, ⟨(init_inv cfg3 ok [.tcp]).1, (init_inv cfg3 ok [.tcp]).2, by intro ch h; cases h⟩, rfl, ?_⟩
+  intro j hj
+  have : j = 0 ∨ j = 1 ∨ j = 2 := by omega
+  rcases this with rfl | rfl | rfl <;> decide
+example : (burst cfg3 (init cfg3 [.tcp]) [(0, 0), (1, 0), (2, 0)]).dispatched.map (·.2) = [0, 1, 2] := by decide
+-- with a fourth connection the cursor wraps: worker 0 gets its second connection (limit 2)
+example : (burst cfg3 (init cfg3 [.tcp]) [(0, 0), (1, 0), (2, 0), (3, 0)]).dispatched.map (·.2) = [0, 1, 2, 0] := by decide
 
 end ActixNet.C04
